@@ -7,6 +7,12 @@ PY = '/venv/bin/python'
 
 # id -> (technique, level text, level note, design ref)
 CHECKS = {
+    'C01': ('Hypothesis-generated ELF models + deterministic type/machine sweep, written by an independent struct.pack writer; round-trip against the model',
+            'Exploration: every header field, section/segment order, name, specialised class, machine-switched type name and name/index '
+            'lookup of generated images (all class/order cells, table-switching machines, oversized entries, arbitrary table placement, '
+            'forced and real (>=0xff00 / >=0xffff) extended numbering) is compared with the model that produced the bytes.',
+            'Trusted: the writer vf/enc/elf.py (refereed against readelf), the vendored glibc/LLVM registries for code names, Hypothesis.',
+            'DESIGN.md 4/C01'),
     'C16': ('exhaustive enumeration of short encodings + Hypothesis random encodings against an independent arithmetic decoder',
             'Exploration: every LEB128 prefix up to 2 (quick) / 3 (thorough) bytes and (thorough) all 2^24 24-bit values are enumerated '
             'completely; longer encodings, fixed-width integers, strings, blocks and initial lengths are covered by boundary sweeps and '
